@@ -270,6 +270,15 @@ def gen_model_multi(rng, toks, dur=None):
     out = rng.choice(['bug\n', 'unsat\n', 'sat\nbug\n', ''])
     err = rng.choice(['', 'error: assertion failed\n', 'warn\n'])
     beh = ['normal', d]
+    r2 = random.Random(hash_seed(toks, ex, out, err, 'bytes'))
+    raw = r2.random() < 0.2
+    if raw:
+        # the command prints bytes that are not valid UTF-8 (lone surrogates
+        # stand for them): Latin-1 text, binary data
+        if r2.random() < 0.5:
+            out += 'caf\udce9 \udcff\n'
+        else:
+            err += 'r\udce9sum\udce9\n'
     classes = {
         'bug': {'exit': ex, 'out': out, 'err': err, 'beh': beh},
         # stdout contains the golden stdout but is longer
@@ -296,6 +305,12 @@ def gen_model_multi(rng, toks, dur=None):
     names = ['out_superset', 'err_superset', 'out_differs', 'err_differs',
              'exit_differs', 'streams_swapped']
     rng.shuffle(names)
+    if raw:
+        # the same text with another undecodable byte: different streams
+        classes['bytes_differ'] = {
+            'exit': ex, 'out': out.replace('\udce9', '\udce8'),
+            'err': err.replace('\udce9', '\udce8'), 'beh': beh}
+        names.insert(0, 'bytes_differ')
     if (out or err) and random.Random(hash_seed(toks, ex, out, err)).random() < 0.3:
         names.insert(0, 'line_ends_differ')
     rules = [[{'k': 'golden', 'dig': reftok.digest(toks)}, 'bug']]
